@@ -7,7 +7,7 @@ candidates / push histories, with no bound on anything.
 -/
 import DhtVerif.Model.Containers
 import DhtVerif.Lemmas.C18
-import DhtVerif.Props.SourceTrees2
+import DhtVerif.Props.ST2Closer
 namespace Dht
 
 /-! ## XOR distance -/
